@@ -323,6 +323,8 @@ def run_property(pid, tier, module, seed=0):
         "proved_unbounded": sum(1 for o in proved if not o["structure"]),
         "proved_per_structure": sum(1 for o in proved if o["structure"]),
         "bounded_standin": (standin or {}).get("evaluations", 0),
+        "bounded_contract_evaluations": sum(1 for o in proved if (o["structure"] or {}).get("bounded")),      # run-time contract instances (C03), not proofs
+        "discharged_deductively": sum(1 for o in proved if not (o["structure"] or {}).get("bounded")),
         "covers": len(covers), "covers_ok": sum(1 for c in covers if c["status"] == "proved"),
         "canaries": len(canaries), "canaries_refuted": sum(1 for c in canaries if c["status"] == "refuted"),
         "checker_cmd": f"./check {pid} --tier {tier}",
